@@ -458,6 +458,17 @@ def extra_checks(run):
     return out
 
 
+def shrink_keep_tail(line):
+    """number of trailing operations of a case that belong to a fixed epilogue (not to be removed when shrinking)"""
+    if line.startswith("frozen "):
+        ops = line.rsplit(" | ", 1)[-1].split(" ; ")
+        if len(ops) >= 2 and ops[-1].startswith("Push ") and ops[-2].startswith("SetReadOnly "):
+            return 2
+        if ops and ops[-1].startswith("SetReadOnly "):
+            return 1
+    return 0
+
+
 def in_scope(pid, stream, tags):
     if pid == "C01":
         return "oos" not in tags.split()
